@@ -247,7 +247,7 @@ def c13_plan(run, replay=None):
     if replay:
         replay_cases(run, replay, "cases.ndjson")
     else:
-        for sl in ["ids", "header", "stu", "events", "shift", "long", "durations", "srEvents", "vids", "vpos", "vrest", "vtrip"] + ([] if q else ["stu2", "hdr2"]):
+        for sl in ["ids", "header", "stu", "events", "shift", "long", "durations", "srEvents", "order", "vids", "vpos", "vrest", "vtrip"] + ([] if q else ["stu2", "hdr2"]):
             run.tlc("TripHashMC", "C13_%s.cfg" % sl, "design", workers=4, cases_out="cases.ndjson", timeout=1500)
     s = run.harness("hash", ["-in", "cases.ndjson", "-out", "obs.ndjson"], timeout=3000)
     run.load_inputs("obs.ndjson.inputs")
